@@ -265,6 +265,42 @@ func genWire() {
 		}
 		sort.Slice(fixed, func(i, j int) bool { return fixed[i][0] < fixed[j][0] })
 		sort.Slice(lenenc, func(i, j int) bool { return lenenc[i] < lenenc[j] })
+		// bounds checks added by the repair: a guard on NumericTypesStorageBytes[fieldType] in front of the switch and a
+		// guard in front of every LengthEncodedString read
+		fixedGuard := false
+		for _, st := range fd.Body.List {
+			if is, ok := st.(*ast.IfStmt); ok && is.Init != nil && returnsErr(is.Body) {
+				ast.Inspect(is.Init, func(n ast.Node) bool {
+					if sel, ok := n.(*ast.SelectorExpr); ok && sel.Sel.Name == "NumericTypesStorageBytes" {
+						fixedGuard = true
+					}
+					return true
+				})
+			}
+		}
+		lenencGuard := true
+		ast.Inspect(fd.Body, func(n ast.Node) bool {
+			cc, ok := n.(*ast.CaseClause)
+			if !ok || len(cc.Body) == 0 {
+				return true
+			}
+			for i, st := range cc.Body {
+				if as, ok := st.(*ast.AssignStmt); ok && len(as.Rhs) == 1 {
+					if c, ok := as.Rhs[0].(*ast.CallExpr); ok {
+						if sel, ok := c.Fun.(*ast.SelectorExpr); ok && sel.Sel.Name == "LengthEncodedString" {
+							if i == 0 {
+								lenencGuard = false
+							} else if is, ok := cc.Body[i-1].(*ast.IfStmt); !ok || !returnsErr(is.Body) {
+								lenencGuard = false
+							}
+						}
+					}
+				}
+			}
+			return true
+		})
+		lf.def("myExtractFixedGuarded", "Bool", boolStr(fixedGuard), "extractData: fixed-width reads are preceded by a bounds check returning an error")
+		lf.def("myExtractLenEncGuarded", "Bool", boolStr(lenencGuard), "extractData: every LengthEncodedString read is preceded by a bounds check returning an error")
 		lf.def("myExtractFixed", "List (Nat × Nat)", pairList(fixed), "extractData: type code → fixed width of `rowData[pos:pos+K]` (0 for the `[]byte{}, 0` case)")
 		lf.def("myExtractLenEnc", "List Nat", natList(lenenc), "extractData: type codes read with LengthEncodedString")
 	}
@@ -335,6 +371,10 @@ func classifyExtract(env *constEnv, body []ast.Stmt, where string) (string, uint
 			}
 		}
 		return "", 0
+	}
+	// optional guard `if pos > len(rowData) { return …, ErrMalformPacket }` in front of the read
+	if is, ok := body[0].(*ast.IfStmt); ok && len(body) > 1 && returnsErr(is.Body) {
+		body = body[1:]
 	}
 	// value, n, err := base_mysql.LengthEncodedString(rowData[pos:])
 	if as, ok := body[0].(*ast.AssignStmt); ok && len(as.Rhs) == 1 {
